@@ -22,7 +22,7 @@ RULE = (
 )
 ASSUMPTIONS = ["zero-width metas are compared only in the include-meta variants"]
 TIMEOUT = {"quick": 400, "thorough": 900}
-MIN_NONTRIVIAL = {"quick": 150, "thorough": 1500}
+MIN_NONTRIVIAL = {"quick": 80, "thorough": 1500}
 REQUIRED_COUNTERS = ["records_compared"]
 POS_KEYS = {"start_line_no", "start_line_pos", "start_file_pos", "end_line_no", "end_line_pos", "end_file_pos"}
 
@@ -42,7 +42,7 @@ def universe():
 
 def cases(tier, seed):
     key = lambda c: ("hs" + ("|cli" if c.get("cli") else "")) if c["kind"] == "hs" else c["stratum"]
-    return stratified_sample(universe(), key, 700 if tier == "quick" else 0, seed)
+    return stratified_sample(universe(), key, 360 if tier == "quick" else 0, seed)
 
 
 def tree_leaves(tree, include_meta):
